@@ -334,7 +334,7 @@ def check_codes(ctx):
 
 def run(ctx):
     intervals = _items.check_header_encode(ctx, "C01.B1", "Base", "encode_item_header", "format_code")
-    _items.check_header_decode(ctx, "C01.B2", "Base", "decode_item_header", "variables")
+    _items.check_header_decode(ctx, "C01.B2", "Base", "decode_item_header", "variables", require_all_accepted=False)
     _items.check_roundtrip(ctx, "C01.B2", "Base", "encode_item_header", "format_code", "Base", "decode_item_header", "variables", intervals)
     n = _items.check_numeric_table(ctx, "C01.T1", NUMERIC, VAR_ATTRS)
     ctx.floor("numeric classes", n, 10)
